@@ -5,6 +5,27 @@ comparisons; `if/else`, `match` on integer ranges, `let` bindings and early `ret
 the bodies are pure), substitution, and constant folding of integer literal expressions."""
 import re
 
+def blank_comments(src):
+    """line comments and (nested) block comments replaced by spaces; newlines, offsets and string literals survive"""
+    out = []; i = 0; n = len(src); depth = 0; in_str = False
+    while i < n:
+        c = src[i]
+        if depth == 0 and not in_str and c == '"':
+            in_str = True; out.append(c); i += 1; continue
+        if in_str:
+            out.append(c)
+            if c == '\\' and i + 1 < n: out.append(src[i + 1]); i += 2; continue
+            if c == '"': in_str = False
+            i += 1; continue
+        if src.startswith('/*', i): depth += 1; out.append('  '); i += 2; continue
+        if depth and src.startswith('*/', i): depth -= 1; out.append('  '); i += 2; continue
+        if depth: out.append('\n' if c == '\n' else ' '); i += 1; continue
+        if src.startswith('//', i):
+            while i < n and src[i] != '\n': out.append(' '); i += 1
+            continue
+        out.append(c); i += 1
+    return ''.join(out)
+
 TOK = re.compile(r'\s*(?:(0x[0-9a-fA-F_]+(?:[iu](?:8|16|32|64))?|0b[01_]+(?:[iu](?:8|16|32|64))?|0o[0-7_]+(?:[iu](?:8|16|32|64))?|\d[\d_]*\.\d[\d_]*(?:f32|f64)?|\d[\d_]*(?:f32|f64|[iu](?:8|16|32|64))?)|([A-Za-z_][A-Za-z_0-9]*)|(::|<<|>>|<=|>=|==|!=|=>|\.\.=|\.\.|[-+*/<>(){}.,;=!^&|:]))')
 
 class TranslationError(Exception):
